@@ -16,6 +16,17 @@ for op in ops:
             out.append([f2b(t.quotient), f2b(t.remainder)])
         elif k == "sub":
             out.append([f2b(Time(b2f(op[1]), b2f(op[2])) - Time(b2f(op[3]), b2f(op[4])))])
+        elif k == "cmpinf":
+            # comparisons against the MODULE-LEVEL singleton `inf` (what the schedulers use), in both orders, and of an
+            # infinite time built by arithmetic (t + inf, from_float(inf)) against it
+            a = Time(b2f(op[1]), b2f(op[2]))
+            which = op[3]
+            if which == 1:
+                a = a + float("inf")
+            elif which == 2:
+                a = Time.from_float(float("inf"))
+            out.append([int(a == inf), int(a != inf), int(a < inf), int(a > inf), int(a <= inf), int(a >= inf),
+                        int(inf == a), int(inf != a), int(inf < a), int(inf > a), int(inf <= a), int(inf >= a)])
         elif k == "cmp":
             a = Time(b2f(op[1]), b2f(op[2]))
             b = Time(b2f(op[3]), b2f(op[4]))
